@@ -11,6 +11,9 @@
 //!             is compiled with #![deny(unused_unsafe)] and uncapped lints (as for the native literal: accepted)
 //!   via    9: every element calls an unsafe fn WITHOUT an unsafe block (as for the native literal: rejected,
 //!             whenever there is an element expression at all)
+//!   via   12: the invocation sits in a scope that SHADOWS the names an unhygienic expansion could pick up: local items
+//!             `Box`, `Vec`, `GenericArray`, `Option`, `Default` and a local `vec!` macro (paths in a macro_rules!
+//!             transcriber resolve at the call site unless they start with `$crate`)
 //!   via   11: list forms (0, 1, 6) whose FIRST element carries `#[cfg(any())]`: the element is compiled out, as in the
 //!             native literal `[#[cfg(any())] e0, e1, ..]`, so the array has one element less (and e0 is not evaluated)
 //!   via   10: box_arr![x; N] inside a fn generic over the type-level length N (form 7 only: the expansion may not
@@ -122,6 +125,23 @@ fn case_body(c: &[i128]) -> String {
             6 => format!("let o = observe(1, &*box_arr![{rlist}{commas}]); o"),
             7 => format!("let o = observe(1, &*box_arr![{}; {nty}]); o", r(0)),
             _ => format!("let o = observe(1, &*box_arr![{}; {count}]); o", r(0)),
+        };
+    }
+    // via 12: the caller's scope shadows Box / Vec / GenericArray / Option / Default / vec!
+    if via == 12 {
+        let sh = "#[allow(dead_code)] struct Box; #[allow(dead_code)] struct Vec; #[allow(dead_code)] struct GenericArray; #[allow(dead_code)] struct Option; #[allow(dead_code)] struct Default; #[allow(unused_macros)] macro_rules! vec { ($($t:tt)*) => { compile_error!(\"the caller's own vec! macro\") } }";
+        let ga = "generic_array::GenericArray";
+        let bx = "std::boxed::Box";
+        return match form {
+            0 => format!("{sh} let a: {ga}<{t}, _> = arr![{}{commas}]; observe(0, &a)", list()),
+            1 => format!("{sh} const A: {ga}<{t}, {nty}> = arr![{}{commas}]; observe(0, &A)", clist()),
+            2 => format!("{sh} let a: {ga}<{t}, _> = arr![{x}; {nty}]; observe(0, &a)"),
+            3 => format!("{sh} let a: {ga}<{t}, _> = arr![{x}; {count}]; observe(0, &a)"),
+            4 => format!("{sh} const A: {ga}<{t}, {nty}> = arr![{cx}; {nty}]; observe(0, &A)"),
+            5 => format!("{sh} const A: {ga}<{t}, {nty}> = arr![{cx}; {count}]; observe(0, &A)"),
+            6 => format!("{sh} let a: {bx}<{ga}<{t}, _>> = box_arr![{}{commas}]; observe(1, &a)", list()),
+            7 => format!("{sh} let a: {bx}<{ga}<{t}, _>> = box_arr![{x}; {nty}]; observe(1, &a)"),
+            _ => format!("{sh} let a: {bx}<{ga}<{t}, _>> = box_arr![{x}; {count}]; observe(1, &a)"),
         };
     }
     // via 11: the first element of a list form is compiled out by a cfg attribute
@@ -439,6 +459,12 @@ fn generated_cases(thorough: bool) -> Vec<Vec<i128>> {
             for via in [8i128, 9] {
                 v.push(vec![form, n, 0, if form == 0 || form == 6 { n % 2 } else { 0 }, via]);
             }
+        }
+    }
+    // the caller's scope shadows the names an expansion might use unqualified
+    for n in [0i128, 1, 3] {
+        for form in 0..9i128 {
+            v.push(vec![form, n, 0, if form == 0 || form == 6 { n % 2 } else { 0 }, 12]);
         }
     }
     // a list element compiled out by `#[cfg(any())]`
